@@ -43,7 +43,7 @@ class Registry(V.Family):
         "quick": dict(mc=[("ContainerMC.tla", "Container_quick.cfg"), ("ContainerMC.tla", "ContainerFee_quick.cfg")], mc_timeout=600,
                       sim=("ContainerMC.tla", "Container_sim.cfg", 80, 31), sim_keep=120, nrand=120, shards=6),
         "thorough": dict(mc=[("ContainerMC.tla", "Container_thorough.cfg"), ("ContainerMC.tla", "ContainerFee_thorough.cfg")],
-                         mc_timeout=3000, sim=("ContainerMC.tla", "Container_sim.cfg", 1500, 31), sim_keep=3000, nrand=4000, shards=14),
+                         mc_timeout=3000, sim=("ContainerMC.tla", "Container_sim.cfg", 1000, 31), sim_keep=2000, nrand=3000, shards=14),
     }
 
     def scenario_from_tlc(self, s):
@@ -103,8 +103,9 @@ class Roster(V.Family):
         "quick": dict(mc=[("ContainerRosterMC.tla", "ContainerRoster_quick.cfg"), ("ContainerRosterMC.tla", "ContainerRoster_long.cfg")],
                       mc_timeout=600, sim=("ContainerRosterMC.tla", "ContainerRoster_sim.cfg", 60, 21), sim_keep=80, nrand=60, shards=6,
                       env=dict(VERIF_FAMMODE="roster")),
-        "thorough": dict(mc=[("ContainerRosterMC.tla", "ContainerRoster_thorough.cfg"), ("ContainerRosterMC.tla", "ContainerRoster_long.cfg")],
-                         mc_timeout=3000, sim=("ContainerRosterMC.tla", "ContainerRoster_sim.cfg", 1200, 21), sim_keep=2000, nrand=1500,
+        "thorough": dict(mc=[("ContainerRosterMC.tla", "ContainerRoster_quick.cfg"), ("ContainerRosterMC.tla", "ContainerRoster_thorough.cfg"),
+                             ("ContainerRosterMC.tla", "ContainerRoster_long.cfg")],
+                         mc_timeout=3000, sim=("ContainerRosterMC.tla", "ContainerRoster_sim.cfg", 800, 21), sim_keep=1500, nrand=1000,
                          shards=14, env=dict(VERIF_FAMMODE="roster")),
     }
 
